@@ -418,7 +418,8 @@ def main():
         violations.append((kind, rp, "no-failing-input-found"))
 
     # 4. evidence
-    evals = sum(r.get("stats", {}).get("lines", 0) for r in results)
+    evals = sum(r.get("stats", {}).get("inputs", 0) for r in results)
+    nlines = sum(r.get("stats", {}).get("lines", 0) for r in results)
     checks = sum(r.get("stats", {}).get("checks", 0) for r in results)
     cov = set()
     for r in results:
@@ -461,6 +462,7 @@ def main():
                     " from one SplitMix64 seed; a case class is (family, scheme, tag/op, implementation outcome, model branch/error kind, signer role); distinct_nontrivial counts distinct classes hit",
             "traces_validated_against_impl": evals,
             "comparisons": checks,
+            "trace_lines": nlines,
             "signature_verifications_by_model": sum(r.get("stats", {}).get("verifications", 0) for r in results),
             "model_impl_disagreements": sum(len(r.get("diffs", [])) for r in results),
             "property_predicate_failures": sum(len(own_props(r)) for r in results),
